@@ -32,26 +32,35 @@ type ExtractCase struct {
 	N         int         `json:"n"`      // -n
 	K         int         `json:"k"`      // the k-th chunk request (1-based, arrival order) is the death point; 0 = none
 	Inplace   bool        `json:"inplace"`
-	Death     string      `json:"death"` // kill | err
+	Death     string      `json:"death"` // kill | err | strace-kill | strace-err (final_test.go)
 	Prior     string      `json:"prior"` // absent | empty | garbage | partial | complete
 	PriorSeed uint64      `json:"prior_seed,omitempty"`
 	PriorLen  int         `json:"prior_len,omitempty"`
+	// strace-kill / strace-err: all chunk requests are answered; the When-th call (per thread) of the
+	// system call set Syscall gets SIGKILL at its entry / fails with Errno. When = 0: undisturbed.
+	Syscall string `json:"syscall,omitempty"`
+	When    int    `json:"when,omitempty"`
+	Errno   string `json:"errno,omitempty"`
+	Bad     string `json:"bad,omitempty"` // self-test only: "unlink-dest" = the harness removes the destination after the death
 }
+
+func (c ExtractCase) straced() bool { return c.Death == "strace-kill" || c.Death == "strace-err" }
 
 // ---------------------------------------------------------------- chunk server
 
 type srvState struct {
-	mu       sync.Mutex
-	cond     *sync.Cond
-	objs     map[string][]byte // "<4hex>/<id>.cacnk" -> stored bytes
-	holdAt   int
-	mode     string
-	reqs     []string // ids in order of arrival
-	served   int      // responses written completely
-	inflight int
-	reached  chan struct{}
-	release  chan struct{}
-	once     sync.Once
+	mu        sync.Mutex
+	cond      *sync.Cond
+	objs      map[string][]byte // "<4hex>/<id>.cacnk" -> stored bytes
+	holdAt    int
+	mode      string
+	reqs      []string // ids in order of arrival
+	served    int      // responses written completely
+	servedIDs map[string]bool
+	inflight  int
+	reached   chan struct{}
+	release   chan struct{}
+	once      sync.Once
 }
 
 var (
@@ -85,7 +94,7 @@ func serverStart() {
 
 func newState(objs map[string][]byte, holdAt int, mode string) (prefix string, st *srvState) {
 	serverStart()
-	st = &srvState{objs: objs, holdAt: holdAt, mode: mode, reached: make(chan struct{}), release: make(chan struct{})}
+	st = &srvState{objs: objs, holdAt: holdAt, mode: mode, reached: make(chan struct{}), release: make(chan struct{}), servedIDs: map[string]bool{}}
 	st.cond = sync.NewCond(&st.mu)
 	srvMu.Lock()
 	srvSeq++
@@ -155,6 +164,7 @@ func serve(w http.ResponseWriter, r *http.Request) {
 	st.inflight--
 	if ok {
 		st.served++
+		st.servedIDs[id] = true
 	}
 	st.cond.Broadcast()
 	st.mu.Unlock()
@@ -300,7 +310,17 @@ func (c ExtractCase) normalise() ExtractCase {
 	if c.K < 0 {
 		c.K = 0
 	}
-	if c.Death != "err" {
+	switch c.Death {
+	case "err":
+	case "strace-kill", "strace-err":
+		c.K = 0
+		if c.When < 0 || c.Syscall == "" {
+			c.When = 0
+		}
+		if c.Errno == "" {
+			c.Errno = "EIO"
+		}
+	default:
 		c.Death = "kill"
 	}
 	return c
@@ -377,24 +397,48 @@ func runExtract(c ExtractCase) (o hx.Outcome) {
 	before := statFile(out)
 
 	// ---- the run that dies
-	prefix, st := newState(objs, c.K, c.Death)
+	srvMode := c.Death
+	if c.straced() {
+		srvMode = "kill" // K = 0: nothing is held
+	}
+	prefix, st := newState(objs, c.K, srvMode)
 	defer dropState(prefix)
 	args := []string{"extract"}
 	if c.Inplace {
 		args = append(args, "-k")
 	}
 	args = append(args, "-n", strconv.Itoa(c.N), "-s", "http://"+srvAddr+"/"+prefix+"/", index, out)
-	res, killed := runDesync(work, args, st, c.K > 0 && c.Death == "kill")
+	var res procResult
+	var killed bool
+	var xt *xTrace
+	if c.straced() {
+		res, xt = runDesyncStrace(work, args, out, c.Death, c.Syscall, c.When, c.Errno)
+		killed = xt.Killed
+	} else {
+		res, killed = runDesync(work, args, st, c.K > 0 && c.Death == "kill")
+	}
 	close(st.release)
 	st.mu.Lock()
+	for i := 0; xt != nil && st.inflight > 0 && i < 50; i++ { // handlers about to book their response (classification only)
+		t := time.AfterFunc(20*time.Millisecond, st.cond.Broadcast)
+		st.cond.Wait()
+		t.Stop()
+	}
 	served, nreq := st.served, len(st.reqs)
+	allServed := len(st.servedIDs) >= len(distinct) // every chunk the assembly has to fetch went out completely
 	st.mu.Unlock()
 	died := killed || res.Exit != 0
+	if c.Bad == "unlink-dest" && died {
+		os.Remove(out)
+	}
 	after := statFile(out)
 
 	o.Desc = map[string]any{"part": "extract", "chunks": len(c.Layout), "distinct": len(distinct), "blob": len(blob), "n": c.N, "k": c.K,
 		"inplace": c.Inplace, "death": c.Death, "prior": c.Prior, "served_before_death": served, "requests": nreq, "died": died}
 	o.Key = fmt.Sprintf("x/%d/%d/%d/%d/%d/%v/%s/%s/%d", len(c.Layout), len(distinct), len(blob), c.N, c.K, c.Inplace, c.Death, c.Prior, served)
+	if xt != nil {
+		o.Key += fmt.Sprintf("/%s/%d/%s", c.Syscall, c.When, c.Errno)
+	}
 	o.Class("extract", "extract:death="+c.Death, "extract:prior="+c.Prior)
 	if c.Inplace {
 		o.Class("extract:inplace")
@@ -416,11 +460,84 @@ func runExtract(c ExtractCase) (o hx.Outcome) {
 	o.Nontrivial = midway
 	obs := map[string]any{"stderr": tail(res.Stderr, 1500), "exit": res.Exit, "killed": killed, "requests": nreq, "served": served}
 	o.Observed = obs
+	finalPhase := false
+	if xt != nil {
+		desc := o.Desc.(map[string]any)
+		desc["syscall"], desc["when"] = c.Syscall, c.When
+		obs["syscall_totals"], obs["syscall_max_per_thread"] = xt.Totals, xt.PerThr
+		obs["strace_tail"] = logTail(xt.Log, 25)
+		obs["renamed_onto_dest"] = xt.Renamed
+		// the crash point belongs to the extract's own file work when the call names something in the output directory
+		inOut := xt.Hit != nil && strings.Contains(xt.Hit.Args, outDir+"/")
+		finalPhase = died && inOut && allServed
+		if xt.Hit != nil {
+			desc["hit"] = xt.Hit.short(outDir)
+			obs["hit_ordinal"], obs["hit_tid"], obs["injected_calls"] = xt.Hit.Ord, xt.Hit.Tid, xt.NHit
+			if c.Death == "strace-err" {
+				desc["errno"] = c.Errno
+			}
+		}
+		if c.When == 0 {
+			o.Class("extract:traced-undisturbed")
+		}
+		if died && inOut {
+			o.Class("extract:" + c.Death + "-at=" + xt.Hit.Name)
+		}
+		switch {
+		case c.Inplace:
+			if died && inOut {
+				o.Class("extract:inplace-syscall-death")
+			}
+		case killed:
+			if finalPhase {
+				o.Class("extract:final-phase-kill")
+			}
+			if xt.Hit.onto(out) {
+				o.Class("extract:killed-at-rename")
+			}
+			if xt.Renamed {
+				o.Class("extract:killed-after-rename")
+			}
+		case c.Death == "strace-err" && xt.Hit != nil:
+			if xt.Hit.onto(out) {
+				o.Class("extract:rename-failed")
+			}
+			if died && finalPhase {
+				o.Class("extract:final-phase-error")
+			}
+			if !died {
+				o.Class("extract:injected-error-survived")
+			}
+		}
+		o.Nontrivial = died && inOut
+	}
 
 	if !died {
 		o.Class("extract:completed")
 		if !bytes.Equal(after.Data, blob) || !after.Exists {
 			o.Fail("C08:extract:complete-run-wrong-output", "extract was not disturbed and exited 0 but the output differs from the blob (%d vs %d bytes)", after.Size, len(blob))
+		}
+		return o
+	}
+	if !c.Inplace && xt != nil {
+		// previous state, or - only once the replacement itself was seen to succeed - the complete blob
+		d := before.diff(after)
+		replaced := xt.Renamed && after.Exists && bytes.Equal(after.Data, blob)
+		if d != "" && !replaced {
+			sig, how := "C08:extract:dest-touched", ""
+			if finalPhase {
+				sig += ":final-phase"
+			}
+			if killed {
+				how = "was killed at the entry of " + xt.Hit.short(outDir)
+			} else {
+				how = "exited with " + strconv.Itoa(res.Exit)
+				if xt.Hit != nil {
+					how += fmt.Sprintf(" after %s failed with the injected %s", xt.Hit.short(outDir), c.Errno)
+				}
+			}
+			o.Fail(sig, "extract without -k %s (%s %s #%d, %d of %d distinct chunks served, n=%d, rename onto the destination seen: %v) and the destination is neither in its previous state nor the complete blob: %s; directory now holds %v",
+				how, c.Death, c.Syscall, c.When, served, len(distinct), c.N, xt.Renamed, d, maskNames(listFiles(outDir)))
 		}
 		return o
 	}
@@ -478,6 +595,14 @@ func runExtract(c ExtractCase) (o hx.Outcome) {
 		}
 	}
 	return o
+}
+
+func maskNames(l []string) []string {
+	out := make([]string, len(l))
+	for i, s := range l {
+		out[i] = reDigits.ReplaceAllString(s, "N")
+	}
+	return out
 }
 
 func firstDiff(a, b []byte) int {
